@@ -31,6 +31,14 @@ def build(kind):
     os.makedirs(BIN, exist_ok=True)
     out = os.path.join(BIN, "vrun-" + kind)
     cmd = ["go", "build", "-tags", "verif", "-o", out]
+    alt = os.environ.get("VERIF_REPO")  # optional: build against another checkout (sweeps on a snapshot, seeded worktrees)
+    if alt and os.path.abspath(alt) != "/repo":
+        out = os.path.join(BIN, "vrun-%s-%s" % (kind, hashlib.md5(alt.encode()).hexdigest()[:8]))
+        moddir = tempfile.mkdtemp(prefix="verif-mod-", dir=os.environ.get("VERIF_SCRATCH", "/var/tmp"))
+        gm = open(os.path.join(HARNESS, "go.mod")).read().replace("=> /repo", "=> " + os.path.abspath(alt))
+        open(os.path.join(moddir, "go.mod"), "w").write(gm)
+        shutil.copyfile(os.path.join(HARNESS, "go.sum"), os.path.join(moddir, "go.sum"))
+        cmd = ["go", "build", "-modfile=" + os.path.join(moddir, "go.mod"), "-tags", "verif", "-o", out]
     if kind == "race":
         cmd += ["-race", MURMUR]
     cmd += ["./cmd/vrun"]
